@@ -616,7 +616,7 @@ def plan_c05(prop, tier, seed, t0):
     def extra(quick, seed):
         # the 600 s cap, and huge values
         out = []
-        for i, secs in enumerate([599, 600, 601, 700, 2147483647]):
+        for i, secs in enumerate([599, 600, 601, 700, 2147483647, 65535, 65536, 65566, 66135, 131072, 131102, 1000000]):
             out.append({
                 "id": "c05-cap-%d" % i, "cap": 16, "seed": seed + i, "phase": (i * 23) % 100,
                 "meta": {"clock": "paused", "proj": V.proj_map(), "src": "cap"},
